@@ -17,6 +17,9 @@ type MemLoc struct {
 	Files map[string][]byte
 	Log   []string
 	OnOp  func(op string) // called (without the lock) after every mutating operation
+	// BeforeWrite, when set, is called at the start of every Write and may block (the harness
+	// decides when the write completes)
+	BeforeWrite func(path string)
 }
 
 func NewMemLoc() *MemLoc { return &MemLoc{Files: map[string][]byte{}} }
@@ -35,6 +38,9 @@ func (m *MemLoc) Write(path string, data io.Reader) (string, error) {
 	b, err := io.ReadAll(data)
 	if err != nil {
 		return "", err
+	}
+	if m.BeforeWrite != nil {
+		m.BeforeWrite(path) // may block: the harness decides when the write completes
 	}
 	m.mu.Lock()
 	m.Files[path] = b
